@@ -43,6 +43,10 @@ func run(seed int64, n int, dir string, _ []string) {
 	dml.CreateCorpus(g, o, root)
 	// corpus: failing ALTER TABLE SET <attribute> on tables of every format; attribute listing, then COMMIT bytes
 	dml.AttrCorpus(g, o, root)
+	// corpus: tables of every file format with their attributes × every statement kind that can fail part-way, then a later change + COMMIT
+	dml.FormatCorpus(g, o, root)
+	// corpus: the witness of the known finding "a failing reload for update drops the cached view and its attributes"
+	dml.DroppedCacheWitness(g, o, root)
 	// corpus: first access through a table function with non-default options, then plain names in failing / succeeding statements
 	dml.LoadFuncCorpus(g, o, root)
 	// corpus: statements nested through failing user-defined functions; SELECTs failing in every clause position
